@@ -17,57 +17,63 @@ Variable pk : key.
 Variable g : genesis.
 Hypothesis Hg : g_proposer g = Addr pk.
 
-(* the heart of the _partial theorems: with an honest address derivation, passing ValidateBasic under
-   the proposer's address means carrying the proposer's signature *)
-Lemma expected_signed : forall sh,
-  signer_consistent (sh_signer sh) = true -> is_expected_sequencer g sh = true -> signed_by pk sh = true.
+(* the heart of the _full theorems (true since the fix that binds signer.address to signer.pubkey):
+   passing ValidateBasic under the proposer's address means carrying the proposer's signature *)
+Lemma expected_signed : forall sh, is_expected_sequencer g sh = true -> signed_by pk sh = true.
 Proof.
-  intros sh Hc He. unfold is_expected_sequencer in He. rewrite Hg in He.
+  intros sh He. unfold is_expected_sequencer in He. rewrite Hg in He.
   apply andb_true_iff in He as [Hp Hv].
   unfold validate_basic in Hv.
   repeat (apply andb_true_iff in Hv as [Hv ?]).
-  unfold signer_consistent in Hc.
   destruct (sg_pub (sh_signer sh)) as [p|] eqn:Epub; try discriminate.
-  destruct p as [kp]. cbn [key_address] in Hc.
+  destruct p as [kp]. cbn [key_address] in *.
+  match goal with H : _ && _ = true |- _ => apply andb_true_iff in H as [Hc Hver] end.
   apply addr_eqb_eq in Hc. apply addr_eqb_eq in Hp.
   match goal with H : addr_eqb (h_proposer _) (sg_addr _) = true |- _ => apply addr_eqb_eq in H; rename H into Hps end.
   assert (kp = pk) by congruence. subst kp.
-  unfold signed_by.
-  match goal with H : verify_header _ _ _ = true |- _ => rename H into Hver end.
-  unfold verify_header in Hver.
+  unfold signed_by. unfold verify_header in Hver.
   destruct (sh_sig sh) as [k pl| | |]; try discriminate.
   exact Hver.
 Qed.
 
-Lemma da_header_partial : forall sh,
-  signer_consistent (sh_signer sh) = true -> admit_da_header g sh = true -> signed_by pk sh = true.
+Lemma da_header_full : forall sh, admit_da_header g sh = true -> signed_by pk sh = true.
 Proof.
-  intros sh Hc Ha. unfold admit_da_header, da_admit in Ha.
+  intros sh Ha. unfold admit_da_header, da_admit in Ha.
   destruct (validate_basic sh) eqn:Ev; cbn in Ha; try discriminate.
   destruct (is_expected_sequencer g sh) eqn:Ee; cbn in Ha; try discriminate.
   apply expected_signed; assumption.
 Qed.
 
-Lemma valid_data_signed : forall sd,
-  signer_consistent (sd_signer sd) = true -> is_valid_signed_data g sd = true -> data_signed_by pk sd = true.
+Lemma valid_data_signed : forall sd, is_valid_signed_data g sd = true -> data_signed_by pk sd = true.
 Proof.
-  intros sd Hc Hv. unfold is_valid_signed_data in Hv. rewrite Hg in Hv.
+  intros sd Hv. unfold is_valid_signed_data in Hv. rewrite Hg in Hv.
   apply andb_true_iff in Hv as [Ha Hv].
-  unfold signer_consistent in Hc.
   destruct (sg_pub (sd_signer sd)) as [[kp]|]; try discriminate.
-  cbn [key_address] in Hc. apply addr_eqb_eq in Hc. apply addr_eqb_eq in Ha.
+  cbn [key_address] in Hv. apply andb_true_iff in Hv as [Hc Hv].
+  apply addr_eqb_eq in Hc. apply addr_eqb_eq in Ha.
   assert (kp = pk) by congruence. subst kp.
   unfold data_signed_by. unfold verify_data in Hv.
   destruct (sd_sig sd); try discriminate. exact Hv.
 Qed.
 
-Lemma da_data_partial : forall sd,
-  signer_consistent (sd_signer sd) = true -> admit_da_data g sd = true -> data_signed_by pk sd = true.
+Lemma da_data_full : forall sd, admit_da_data g sd = true -> data_signed_by pk sd = true.
 Proof.
-  intros sd Hc Ha. unfold admit_da_data, da_admit in Ha.
+  intros sd Ha. unfold admit_da_data, da_admit in Ha.
   destruct (d_txs (sd_data sd)); cbn in Ha; try discriminate.
+  destruct (d_meta (sd_data sd)); cbn in Ha; try discriminate.
   destruct (is_valid_signed_data g sd) eqn:Ev; cbn in Ha; try discriminate.
   apply valid_data_signed; assumption.
+Qed.
+
+(* the retrieve goroutine never panics on a blob *)
+Lemma da_admit_no_panic : forall hs dsn b, o_panic (da_admit g hs dsn b) = false.
+Proof.
+  intros hs dsn b. destruct b as [| | |sh|sd]; cbn [da_admit da_nothing o_panic]; try reflexivity.
+  - destruct (validate_basic sh); cbn [negb da_nothing o_panic]; [|reflexivity].
+    destruct (is_expected_sequencer g sh); reflexivity.
+  - destruct (d_txs (sd_data sd)); [reflexivity|].
+    destruct (d_meta (sd_data sd)); [|reflexivity].
+    destruct (is_valid_signed_data g sd); reflexivity.
 Qed.
 
 (* ---- P2P: the only thing the header store enforces is the proposer ADDRESS ---------------------- *)
@@ -226,20 +232,15 @@ Proof.
   - (* DA blob *)
     assert (Hn : exists hd, da_admit g (n_hseen s) (n_dseen s) b = da_nothing hd).
     { destruct b as [| | |sh|sd]; cbn [da_admit]; try (eexists; reflexivity).
-      - cbn [harmless] in Hh. apply andb_true_iff in Hh as [Hns Hor].
+      - cbn [harmless adversarial] in Hh. apply negb_true_iff in Hh.
         destruct (validate_basic sh) eqn:Ev; cbn [negb]; [|eexists; reflexivity].
         destruct (is_expected_sequencer g sh) eqn:Ee; cbn [negb]; [|eexists; reflexivity].
-        exfalso. apply orb_true_iff in Hor as [Hc|Hnn].
-        + rewrite (expected_signed sh Hc Ee) in Hns. discriminate.
-        + unfold is_expected_sequencer in Ee. rewrite Hg in Ee. apply andb_true_iff in Ee as [Ee _].
-          unfold names_proposer in Hnn. rewrite Ee in Hnn. discriminate.
-      - cbn [harmless] in Hh. apply andb_true_iff in Hh as [Hns Hor].
+        rewrite (expected_signed sh Ee) in Hh. discriminate.
+      - cbn [harmless adversarial] in Hh. apply negb_true_iff in Hh.
         destruct (d_txs (sd_data sd)); [eexists; reflexivity|].
+        destruct (d_meta (sd_data sd)); [|eexists; reflexivity].
         destruct (is_valid_signed_data g sd) eqn:Ev; cbn [negb]; [|eexists; reflexivity].
-        exfalso. apply orb_true_iff in Hor as [Hc|Hnn].
-        + rewrite (valid_data_signed sd Hc Ev) in Hns. discriminate.
-        + unfold is_valid_signed_data in Ev. rewrite Hg in Ev. apply andb_true_iff in Ev as [Ev _].
-          unfold names_proposer in Hnn. rewrite Ev in Hnn. discriminate. }
+        rewrite (valid_data_signed sd Ev) in Hh. discriminate. }
     destruct Hn as [hd Hn]. rewrite Hn. cbn [da_nothing o_hmark o_dmark o_hevent o_devent o_panic fst].
     apply set_ingress_id. exact Ec.
   - (* header gossip *)
@@ -342,10 +343,9 @@ Proof.
   destruct H2 as [H2c H2a]. split; cbn [set_sync n_hcache n_applied]; assumption.
 Qed.
 
-Lemma forward_header_inv : forall tb s sh,
-  signer_consistent (sh_signer sh) = true -> sync_inv s -> sync_inv (forward_header g tb s sh).
+Lemma forward_header_inv : forall tb s sh, sync_inv s -> sync_inv (forward_header g tb s sh).
 Proof.
-  intros tb s sh Hc Hs. unfold forward_header.
+  intros tb s sh Hs. unfold forward_header.
   destruct (is_expected_sequencer g sh) eqn:Ee; [|exact Hs].
   apply sync_header_inv; [|exact Hs]. apply expected_signed; assumption.
 Qed.
@@ -362,18 +362,17 @@ Proof.
     destruct (mem_header (sh_hdr sh') hs); try discriminate.
     intros H; inversion H; subst. split; [reflexivity|exact Ee].
   - destruct (d_txs (sd_data sd)); cbn [da_nothing o_hevent]; try discriminate.
-    destruct (is_valid_signed_data g sd); cbn [negb da_nothing o_hevent]; try discriminate.
-    destruct (d_meta (sd_data sd)); cbn [o_hevent]; discriminate.
+    destruct (d_meta (sd_data sd)); cbn [da_nothing o_hevent]; try discriminate.
+    destruct (is_valid_signed_data g sd); cbn [negb da_nothing o_hevent]; discriminate.
 Qed.
 
-Lemma node_step_sync_inv : forall now tb s i,
-  item_consistent i = true -> sync_inv s -> sync_inv (fst (node_step g now tb s i)).
+Lemma node_step_sync_inv : forall now tb s i, sync_inv s -> sync_inv (fst (node_step g now tb s i)).
 Proof.
-  intros now tb s i Hi Hs. unfold node_step.
+  intros now tb s i Hs. unfold node_step.
   destruct (n_crashed s); [exact Hs|].
   destruct i as [sh|d|b|u|u linked].
   - destruct (n_hstore s); [|exact Hs]. cbn [fst].
-    apply forward_header_inv; [exact Hi|]. apply set_ingress_inv. exact Hs.
+    apply forward_header_inv. apply set_ingress_inv. exact Hs.
   - destruct (n_dstore s); [|exact Hs]. cbn [fst].
     apply sync_data_inv. apply set_ingress_inv. exact Hs.
   - cbn [fst].
@@ -382,21 +381,69 @@ Proof.
     assert (H1 : sync_inv s1) by (apply set_ingress_inv; exact Hs).
     assert (H2 : sync_inv (match o_hevent o with Some sh => sync_header tb s1 sh | None => s1 end)).
     { destruct (o_hevent o) as [sh|] eqn:Eo; [|exact H1].
-      destruct (da_admit_hevent _ _ _ _ Eo) as [Hb He]. subst b. cbn [item_consistent] in Hi.
+      destruct (da_admit_hevent _ _ _ _ Eo) as [Hb He]. subst b.
       apply sync_header_inv; [|exact H1]. apply expected_signed; assumption. }
     destruct (o_devent o); [|exact H2]. apply sync_data_inv. exact H2.
   - destruct (hstore_accepts now (n_hstore s) u); [|exact Hs]. cbn [fst].
-    apply forward_header_inv; [exact Hi|]. apply set_ingress_inv. exact Hs.
+    apply forward_header_inv. apply set_ingress_inv. exact Hs.
   - destruct (dstore_accepts now (n_dstore s) u linked); [|exact Hs]. cbn [fst].
     apply sync_data_inv. apply set_ingress_inv. exact Hs.
 Qed.
 
-Lemma applied_signed_partial : forall now tb l s,
-  forallb item_consistent l = true -> sync_inv s -> sync_inv (node_final g now tb s l).
+(* for ALL traffic: everything the node caches, applies and stores is signed by the proposer *)
+Lemma applied_signed_full : forall now tb l s, sync_inv s -> sync_inv (node_final g now tb s l).
 Proof.
-  intros now tb l. induction l as [|i r IH]; intros s Hl Hs; [exact Hs|].
-  cbn [forallb] in Hl. apply andb_true_iff in Hl as [Hi Hl].
-  rewrite node_final_cons. apply IH; [exact Hl|]. apply node_step_sync_inv; assumption.
+  intros now tb l. induction l as [|i r IH]; intros s Hs; [exact Hs|].
+  rewrite node_final_cons. apply IH. apply node_step_sync_inv; assumption.
+Qed.
+
+(* no traffic whatsoever makes a goroutine of the node panic *)
+Lemma node_step_no_crash : forall now tb s i, n_crashed s = false -> n_crashed (fst (node_step g now tb s i)) = false.
+Proof.
+  intros now tb s i Hc. unfold node_step. rewrite Hc.
+  destruct i as [sh|d|b|u|u linked].
+  - destruct (n_hstore s); [|exact Hc]. cbn [fst]. unfold forward_header.
+    destruct (is_expected_sequencer g sh); [|reflexivity].
+    match goal with |- n_crashed (sync_header tb ?x sh) = _ => destruct (sync_header_frame tb x sh) as (_ & _ & _ & _ & F); rewrite F end.
+    reflexivity.
+  - destruct (n_dstore s); [|exact Hc]. cbn [fst].
+    match goal with |- n_crashed (sync_data tb ?x d) = _ => destruct (sync_data_frame tb x d) as (_ & _ & _ & _ & F); rewrite F end.
+    reflexivity.
+  - cbn [fst]. rewrite da_admit_no_panic.
+    set (o := da_admit g (n_hseen s) (n_dseen s) b).
+    match goal with |- context [set_ingress s ?a ?b0 ?c ?d0 ?e] => set (s1 := set_ingress s a b0 c d0 e) end.
+    assert (H1 : n_crashed s1 = false) by reflexivity.
+    set (s2 := match o_hevent o with Some sh => sync_header tb s1 sh | None => s1 end).
+    assert (H2 : n_crashed s2 = false).
+    { unfold s2. destruct (o_hevent o); [|exact H1]. destruct (sync_header_frame tb s1 s0) as (_ & _ & _ & _ & F). rewrite F. exact H1. }
+    destruct (o_devent o); [|exact H2]. destruct (sync_data_frame tb s2 d) as (_ & _ & _ & _ & F). rewrite F. exact H2.
+  - destruct (hstore_accepts now (n_hstore s) u); [|exact Hc]. cbn [fst]. unfold forward_header.
+    destruct (is_expected_sequencer g u); [|reflexivity].
+    match goal with |- n_crashed (sync_header tb ?x u) = _ => destruct (sync_header_frame tb x u) as (_ & _ & _ & _ & F); rewrite F end.
+    reflexivity.
+  - destruct (dstore_accepts now (n_dstore s) u linked); [|exact Hc]. cbn [fst].
+    match goal with |- n_crashed (sync_data tb ?x u) = _ => destruct (sync_data_frame tb x u) as (_ & _ & _ & _ & F); rewrite F end.
+    reflexivity.
+Qed.
+
+Lemma no_crash_full : forall now tb l s, n_crashed s = false -> n_crashed (node_final g now tb s l) = false.
+Proof.
+  intros now tb l. induction l as [|i r IH]; intros s Hs; [exact Hs|].
+  rewrite node_final_cons. apply IH. apply node_step_no_crash. exact Hs.
+Qed.
+
+(* third-party material on the DA layer (any blobs not signed by the proposer), interleaved anywhere: no effect *)
+Lemma da_adversarial_harmless : forall i, da_adversarial pk i = true -> harmless pk i = true.
+Proof. intros [sh|d|b|u|u l] H; cbn in *; try discriminate. exact H. Qed.
+
+Lemma no_halt_da_full : forall now tb gs adv m,
+  interleave gs adv m ->
+  forallb (init_ok pk) gs = true -> forallb (da_adversarial pk) adv = true ->
+  forall s, hstore_inv pk s ->
+  node_final g now tb s m = node_final g now tb s gs.
+Proof.
+  intros now tb gs adv m Hil Hgs Ha s Hs. eapply no_halt_partial; try eassumption.
+  rewrite forallb_forall in *. intros x Hx. apply da_adversarial_harmless. apply Ha. exact Hx.
 Qed.
 
 Lemma node_init_sync_inv : forall app0 t0, sync_inv (node_init g app0 t0).
@@ -437,20 +484,16 @@ Definition U2 : header := Header 2 2000 7 (Some H1) [8]%N 77 (Addr pk).
 Definition ush2 : sheader := {| sh_hdr := U2; sh_sig := SigEmpty; sh_signer := {| sg_pub := None; sg_addr := AddrEmpty |} |}.
 
 Definition genuine : list item := [ IDA (BHdr sh1); IDA (BHdr sh2); IDA (BData sd2) ].
+Definition D1 : data := {| d_meta := Some {| m_chain := 7; m_height := 1; m_time := 1000 |}; d_txs := [] |}.
+Definition genuine_p2p : list item := [ IInitH sh1; IInitD D1; IGossipH sh2; IGossipD D2 true ].
+Definition mixed_p2p : list item := [ IInitH sh1; IInitD D1; IGossipD FD true; IGossipH sh2; IGossipD D2 true ].
 Definition s0 : nstate := node_init gen app0 500.
 End W.
 
-Lemma da_header_refuted :
-  ~ (forall g pk sh, g_proposer g = Addr pk -> admit_da_header g sh = true -> signed_by pk sh = true).
-Proof.
-  intros H. specialize (H W.gen W.pk W.fsh1 eq_refl). vm_compute in H. specialize (H eq_refl). discriminate.
-Qed.
-
-Lemma da_data_refuted :
-  ~ (forall g pk sd, g_proposer g = Addr pk -> admit_da_data g sd = true -> data_signed_by pk sd = true).
-Proof.
-  intros H. specialize (H W.gen W.pk W.fsd eq_refl). vm_compute in H. specialize (H eq_refl). discriminate.
-Qed.
+(* the repaired checks reject the forgeries that used to be admitted *)
+Lemma forged_now_rejected :
+  admit_da_header W.gen W.fsh1 = false /\ admit_da_data W.gen W.fsd = false /\ admit_da_data W.gen W.fsd_nometa = false.
+Proof. vm_compute. repeat split; reflexivity. Qed.
 
 Lemma p2p_header_refuted :
   ~ (forall pk now st u, Forall (fun t => signed_by pk t = true) st ->
@@ -461,24 +504,17 @@ Proof.
   specialize (H Hs). vm_compute in H. inversion H as [|x l Hx Hl]; subst. discriminate.
 Qed.
 
+(* still false after the repairs, through P2P only: data gossip carries no signature; a third party's data
+   for the next height that hash-links to the data head is cached, the genuine header then fails validation *)
 Lemma no_halt_refuted :
   ~ (forall g pk now tb gs adv m s, g_proposer g = Addr pk -> interleave gs adv m ->
        forallb (init_ok pk) gs = true -> forallb (adversarial pk) adv = true -> hstore_inv pk s ->
        node_final g now tb s m = node_final g now tb s gs).
 Proof.
   intros H.
-  specialize (H W.gen W.pk W.now W.tb W.genuine [IDA (BHdr W.fsh1)] (IDA (BHdr W.fsh1) :: W.genuine) W.s0 eq_refl).
-  assert (Hil : interleave W.genuine [IDA (BHdr W.fsh1)] (IDA (BHdr W.fsh1) :: W.genuine)).
-  { apply il_r. unfold W.genuine. repeat apply il_l. apply il_nil. }
+  specialize (H W.gen W.pk W.now W.tb W.genuine_p2p [IGossipD W.FD true] W.mixed_p2p W.s0 eq_refl).
+  assert (Hil : interleave W.genuine_p2p [IGossipD W.FD true] W.mixed_p2p).
+  { unfold W.genuine_p2p, W.mixed_p2p. apply il_l. apply il_l. apply il_r. apply il_l. apply il_l. apply il_nil. }
   specialize (H Hil eq_refl eq_refl I).
   apply (f_equal n_halted) in H. vm_compute in H. discriminate.
-Qed.
-
-(* the same with the metadata-less forged data blob: the node process dies *)
-Lemma no_crash_refuted :
-  ~ (forall g pk now tb l s, g_proposer g = Addr pk -> forallb (adversarial pk) l = true ->
-       n_crashed s = false -> n_crashed (node_final g now tb s l) = false).
-Proof.
-  intros H. specialize (H W.gen W.pk W.now W.tb [IDA (BData W.fsd_nometa)] W.s0 eq_refl eq_refl eq_refl).
-  vm_compute in H. discriminate.
 Qed.
